@@ -53,10 +53,13 @@ def run(ctx):
                          "legacy rewriteSignatures on fabricated responses; c18fan: GET by hash / by remote uuid through the legacy handler stack with "
                          "a stub HTTP transport, 0-4 remotes answering with any status code (200, 1xx, other 2xx, 3xx, 4xx, 5xx) and any body (record with "
                          "matching / tampered / unrelated manifest, lying or differing record hash, error document, not JSON), transport error or "
-                         "silence, released one at a time in a generated order; "
+                         "silence, released one at a time by generated priority while following the request capacity (MaxRequestAmplification 0-4, 16; stratum: silent "
+                         "remotes hold every slot but one), compressing clusters and client Accept-Encoding; "
                          "distinct by hash of the case term; non-trivial = at least 2 remotes or a successful fetch",
                     assumptions=["MD5 is computed by the Gallina implementation lib/Md5.v (validated by the correspondence)",
                                  "reply order is enforced by gates; a collection-type reply is followed by waiting for the call to return or for the bad-hash warning (fallback 2 s)",
                                  "c18fan: a released answer is followed by waiting until the request completes or the answer's body has been closed "
                                  "(fallback 3 s, tagged sync-timeout; on a correct tree the result does not depend on the order of failing answers); with a "
-                                 "silent remote and no success the client gives up and the status may be 404 or 502 depending on goroutine timing (both accepted)"])
+                                 "silent remote and no success the client gives up and the status may be 404 or 502 depending on goroutine timing (both accepted)",
+                                 "c18fan: a remote request that does not reach the transport although a slot is free is recorded after a 15 s watchdog and judged by the "
+                                 "evaluator (never reached on a correct tree); the stub transport emulates net/http's gzip rule"])
